@@ -20,8 +20,9 @@ namespace ArvVerif.C03
 
 abbrev Bytes := List UInt8
 
-/-- Error classes that can come out of the read path. `eof` is `io.EOF`. `panic` is the
-`make([]byte, size, bufsize)` run-time panic of BlockCache.Get's fetch goroutine (size > cap). -/
+/-- Error classes that can come out of the read path. `eof` is `io.EOF`. `panic` stands for a
+run-time panic of the fetch goroutine (before the fix F3a `make([]byte, size, bufsize)` panicked
+for size > cap); `C03_fetch_never_panics` shows that no input produces it any more. -/
 inductive Err where
   | eof | ueof | badChecksum | closeFail
   | notFound | failTemp | failPerm | proto | panic
@@ -257,7 +258,7 @@ variable {D : Type} [DecidableEq D] (hash : Bytes → D)
 
 /-- What the fetch goroutine stores in the cache block from a successful `kc.Get` (block_cache.go:86-97). -/
 def fetchBody (check : D) (bufsize : Nat) (body : Body) (expect : Nat) : Entry :=
-  if bufsize < expect then { data := [], err := some .panic } else
+  if bufsize < expect then { data := [], err := some .proto } else    -- "size … exceeds buffer size" (fix F3a)
   let r := readFullClose hash check body expect
   { data := r.1 ++ zeros (expect - r.1.length), err := r.2 }
 
